@@ -174,4 +174,142 @@ theorem steps_JXO (dss : List (List Call)) (hx : ∀ ds ∈ dss, ∀ d ∈ ds, P
       rw [srcOuts_append, ← List.append_assoc]
       exact k2
 
+/-! ### the minimize statements over several steps -/
+
+/-- `final_mins` with minimize statements of earlier steps in front -/
+theorem final_mins_base (c : CS) (hf : c.fail = false) (hfs : FlushShape c.flushMinimize) (hh : c.heur = []) (hi : Inv (abs c))
+    (m : Nat → Nat) (ha : Agree (c.apply .endStep) m) :
+    minsOf (c.apply .endStep).out = minsOf c.out ++ c.minimize.map (fun pl => (pl.1, renW m pl.2)) ∧
+    ∀ pl ∈ c.minimize, ∀ q ∈ pl.2, q.1.natAbs ∈ domOf (c.apply .endStep) := by
+  obtain ⟨f1, f2, f3, f4⟩ := flushMinimize_frame c
+  obtain ⟨rs, e, _, o2⟩ := hfs
+  have hfl : c.flush = { (({ c.flushMinimize with out := c.flushMinimize.out ++ rs } : CS).flushSymbols.emit (.assume [-1])) with
+      minimize := [], externs := [], heur := [], output := [] } := by
+    unfold CS.flush
+    simp only
+    rw [e, flushHeuristic_none _ (by show c.flushMinimize.heur = []; exact f4.trans hh)]
+  have habs : abs (c.apply .endStep) = abs c.flushMinimize := by
+    rw [apply_end c hf, hfl]
+    exact abs_flushSymbols _
+  have ha' : Agree c.flushMinimize m := by unfold Agree; rw [← habs]; exact ha
+  obtain ⟨g1, g2⟩ := flushMinimize_mins c hi m ha'
+  refine ⟨?_, ?_⟩
+  · rw [apply_end c hf, hfl]
+    simp only [CS.emit]
+    rw [minsOf_append, minsOf_append, flushSymbols_mins]
+    show (minsOf (c.flushMinimize.out ++ rs) ++ minsOf [Call.assume [-1]]) ++ minsOf [Call.endStep] = _
+    rw [minsOf_append, g1, o2]
+    simp [minsOf, minOf]
+  · intro pl hpl q hq
+    unfold domOf; rw [habs]; exact g2 pl hpl q hq
+
+/-- the pending minimize table through the directives of a step -/
+theorem run_M {c : CS} {P defs Ms base} (hj : J c P defs) (hM : M c Ms base) (ds : List Call) (hx : ∀ d ∈ ds, PlainOk d) :
+    M (ds.foldl CS.apply c) (Ms ++ minsOf ds) base := by
+  induction ds generalizing c P defs Ms with
+  | nil => simpa [minsOf] using hM
+  | cons d r ih =>
+    obtain ⟨defs1, h1⟩ := apply_plainJ hj d (hx d (by simp))
+    have m1 := hM.step hj.nofail d (hx d (by simp))
+    have m2 := ih h1 m1 (fun e he => hx e (by simp [he]))
+    have : minsOf (d :: r) = minsOf [d] ++ minsOf r := by rw [← minsOf_append]; rfl
+    rw [this, ← List.append_assoc]
+    exact m2
+
+/-- the minimize statements emitted so far (state between two steps): a table `TT` over the GIVEN atoms whose image under any atom map that agrees with the
+    state is what has been emitted, which costs what the given statements (negative weights moved to the complementary literals) cost -/
+structure MO (c : CS) (Msrc : List (Int × List (Int × Int))) : Prop where
+  pend : c.minimize = []
+  tab : ∃ TT : List (Int × List (Int × Int)),
+      (∀ m, Agree c m → minsOf c.out = TT.map (fun pl => (pl.1, renW m pl.2))) ∧
+      (∀ X p, costM X TT p = costM X (Msrc.map (fun q => (q.1, q.2.map flipNeg))) p) ∧
+      (∀ pl ∈ TT, ∀ q ∈ pl.2, q.1 ≠ 0 ∧ q.1.natAbs ∈ domOf c)
+
+theorem step_MO {c : CS} {P defs} {t : T} {Msrc} (hj : J c P defs) (hxi : XI c t) (ht : t.regs = []) (hmo : MO c Msrc) (hh0 : c.heur = [])
+    (ds : List Call) (hx : ∀ d ∈ ds, PlainOk d) (hnh : ∀ d ∈ ds, isHeu d = false) (hE : extCalls ds = [] ∨ c.ext = true) :
+    MO (stepRun c ds) (Msrc ++ minsOf ds) := by
+  have hb : J (c.apply .beginStep) P defs := by rw [apply_begin _ hj.nofail]; exact hj.emit _ rfl
+  have xb : XI (c.apply .beginStep) t := by rw [apply_begin _ hj.nofail]; exact hxi.emit _
+  have eb : minsOf (c.apply .beginStep).out = minsOf c.out := by
+    rw [apply_begin _ hj.nofail]; simp [CS.emit, minsOf_append, minsOf, minOf]
+  have mb : M (c.apply .beginStep) [] (minsOf c.out) := by
+    refine ⟨?_, ?_, eb⟩
+    · intro X p
+      have : (c.apply .beginStep).minimize = [] := by rw [apply_begin _ hj.nofail]; exact hmo.pend
+      rw [this]; rfl
+    · intro pl hpl
+      have : (c.apply .beginStep).minimize = [] := by rw [apply_begin _ hj.nofail]; exact hmo.pend
+      rw [this] at hpl; cases hpl
+  obtain ⟨defs', h1, x1⟩ := run_JX hb xb ds hx
+  have m1 := run_M hb mb ds hx
+  rw [List.nil_append] at m1
+  have hextOr : (ds.foldl CS.apply (c.apply .beginStep)).ext = true ∨ (ds.foldl CS.apply (c.apply .beginStep)).externs = [] := by
+    rcases hE with h | h
+    · right; rw [x1.r, run_regs_nil ds t h, ht]
+    · left
+      have e0 : (c.apply .beginStep).ext = c.ext := by rw [apply_begin _ hj.nofail]; rfl
+      have : ∀ (l : List Call) (c0 : CS) {P0 d0}, J c0 P0 d0 → (∀ d ∈ l, PlainOk d) → (l.foldl CS.apply c0).ext = c0.ext := by
+        intro l
+        induction l with
+        | nil => intro _ _ _ _ _; rfl
+        | cons d r ih =>
+          intro c0 P0 d0 hj0 hx0
+          obtain ⟨d1, hj1⟩ := apply_plainJ hj0 d (hx0 d (by simp))
+          simp only [List.foldl_cons]
+          rw [ih _ hj1 (fun e he => hx0 e (by simp [he])), apply_plain_ext c0 hj0.nofail d (hx0 d (by simp))]
+      rw [this ds _ hb hx, e0, h]
+  have hshape := flushShape_any _ h1.inv x1.m hextOr
+  have hheur : (ds.foldl CS.apply (c.apply .beginStep)).heur = [] := by
+    rw [run_heurJ hb ds hx hnh, apply_begin _ hj.nofail]; exact hh0
+  have hs : Steps (abs c) (abs ((ds.foldl CS.apply (c.apply .beginStep)).apply .endStep)) :=
+    ((apply_steps c .beginStep).trans (convert_steps _ ds)).trans (apply_steps _ .endStep)
+  obtain ⟨TT, t1, t2, t3⟩ := hmo.tab
+  show MO ((ds.foldl CS.apply (c.apply .beginStep)).apply .endStep) _
+  refine ⟨?_, TT ++ (ds.foldl CS.apply (c.apply .beginStep)).minimize, ?_, ?_, ?_⟩
+  · rw [apply_end _ h1.nofail]; rfl
+  · intro m ha
+    obtain ⟨g1, _⟩ := final_mins_base _ h1.nofail hshape hheur h1.inv m ha
+    rw [g1, m1.nomin, t1 m (agree_back hs hj.inv ha), List.map_append]
+  · intro X p
+    rw [costM_append, t2 X p, m1.cost X p, List.map_append, costM_append]
+  · intro pl hpl q hq
+    rcases List.mem_append.mp hpl with h | h
+    · exact ⟨(t3 pl h q hq).1, dom_mono hs hj.inv _ (t3 pl h q hq).2⟩
+    · obtain ⟨_, g2⟩ := final_mins_base _ h1.nofail hshape hheur h1.inv (finalMap _) (agree_final _ (steps_inv' hs hj.inv))
+      exact ⟨m1.nz pl h q hq, g2 pl h q hq⟩
+
+/-- **several steps, outputs and minimize statements**: `steps_JXO` with `MO` carried along -/
+theorem steps_JXOM (dss : List (List Call)) (hx : ∀ ds ∈ dss, ∀ d ∈ ds, PlainOk d) (hnh : ∀ ds ∈ dss, ∀ d ∈ ds, isHeu d = false)
+    {c : CS} {P defs} {t : T} {Oall Msrc} (hj : J c P defs) (hxi : XI c t) (ht : t.regs = []) (hko : KO c Oall defs) (hmo : MO c Msrc)
+    (hE : (∀ ds ∈ dss, extCalls ds = []) ∨ c.ext = true) :
+    ∃ defs' t', J (dss.foldl stepRun c) (P ++ (rulesOf dss.flatten).filter kept) defs' ∧ XI (dss.foldl stepRun c) t' ∧ t'.regs = [] ∧
+      KO (dss.foldl stepRun c) (Oall ++ srcOuts dss.flatten) defs' ∧ MO (dss.foldl stepRun c) (Msrc ++ minsOf dss.flatten) := by
+  induction dss generalizing c P defs t Oall Msrc with
+  | nil => exact ⟨defs, t, by simpa [rulesOf] using hj, hxi, ht, by simpa [srcOuts] using hko, by simpa [minsOf] using hmo⟩
+  | cons ds r ih =>
+    have hx1 : ∀ d ∈ ds, PlainOk d := hx ds (by simp)
+    have hE1 : extCalls ds = [] ∨ c.ext = true := by
+      rcases hE with h | h
+      · exact Or.inl (h ds (by simp))
+      · exact Or.inr h
+    obtain ⟨defs1, h1, x1, k1⟩ := step_JXO hj hxi ht hko ds hx1 (hnh ds (by simp)) hE1
+    have m1 := step_MO hj hxi ht hmo hko.noheu ds hx1 (hnh ds (by simp)) hE1
+    have hext : (stepRun c ds).ext = c.ext := stepRun_ext hj hxi ds hx1
+    have hE2 : (∀ ds' ∈ r, extCalls ds' = []) ∨ (stepRun c ds).ext = true := by
+      rcases hE with h | h
+      · exact Or.inl (fun ds' h' => h ds' (by simp [h']))
+      · exact Or.inr (hext.trans h)
+    obtain ⟨defs2, t2, h2, x2, r2, k2, m2⟩ := ih (fun ds' h' => hx ds' (by simp [h'])) (fun ds' h' => hnh ds' (by simp [h'])) (c := stepRun c ds) h1 x1 rfl k1 m1 hE2
+    refine ⟨defs2, t2, ?_, x2, r2, ?_, ?_⟩
+    · simp only [List.foldl_cons, List.flatten_cons]
+      have : rulesOf (ds ++ r.flatten) = rulesOf ds ++ rulesOf r.flatten := rulesOf_append _ _
+      rw [this, List.filter_append, ← List.append_assoc]
+      exact h2
+    · simp only [List.foldl_cons, List.flatten_cons]
+      rw [srcOuts_append, ← List.append_assoc]
+      exact k2
+    · simp only [List.foldl_cons, List.flatten_cons]
+      rw [minsOf_append, ← List.append_assoc]
+      exact m2
+
 end PotasscoVerif.C02
